@@ -18,7 +18,8 @@ QuickSets ==
    s3 |-> <<"urlA", "sim", "rpc", "srv", "info">>,
    s4 |-> <<"mac", "useM", "t4", "e1", "urlAI">>,
    s5 |-> <<"tag1", "tag2", "urlT", "getB", "t1">>,
-   sA |-> <<"pathX", "pathXY", "t1", "getB", "srv">>]
+   sA |-> <<"pathX", "pathXY", "t1", "getB", "srv">>,
+   sB |-> <<"t7", "useR1", "useR2", "t1", "srv">>]
 DeepSets ==
   [s6 |-> <<"t1", "reqT", "tAny", "srv2", "srv", "infoV">>,
    s7 |-> <<"mac", "mac2", "t1", "bodyT", "tag1", "pathM">>,
